@@ -6,7 +6,7 @@ from props import _xform as X
 
 META = {
     "level": "proof",
-    "technique": "Coq theorems (frame, effect, idempotence, solid shape, extra-chunk survival) on a Gallina model of run_transform_entry and the per-command transformers; the model is tied to the real `pna` binary by generated editing histories whose every step is compared with the model's prediction, plus direct frame/effect/idempotence/order oracles on the decoded archives",
+    "technique": "Coq theorems (frame, effect, idempotence, solid shape, extra-chunk survival) on a Gallina model of run_transform_entry and the per-command transformers; the model is tied to the real `pna` binary by generated editing histories whose every step is compared with the model's prediction, plus direct frame/effect/idempotence/order oracles on the decoded archives Lifted to archive files (Props/C10_container.v): unselected entries keep the identical chunk list, selected entries keep header, PHSF, data chunks and recorded sizes (no re-encryption), both solid strategies, idempotence on bytes for chmod / chown / xattr / strip.",
     "level_text": "The editing commands are modelled in Gallina on the logical content of an archive (items Normal/Solid over entries with name, kind, content, times, permission, xattrs, extra chunks); frame, effect, idempotence and shape theorems are proved for all archives, selections and arguments (Coq, closed under the global context; glob matching and the user database are parameters). Every step of generated histories of the real CLI (plain, solid, mixed, encrypted, multipart archives; both solid strategies; password present/absent) is decoded through libpna and must equal the model's answer exactly; independent oracles check frame, effect, order and idempotence on the implementation alone.",
     "level_note": "Trusted: Coq kernel + vm_compute; extraction and the OCaml driver (cross-checked in the kernel on a sample); the harness binaries mkarchive/dump/globtab (libpna's own writer and reader, the real globset crate); Python's pwd/grp look-ups as the user-database oracle; the hand-written model is faithful only as far as the generated histories reach. Entry content is compared in decoded form, not the re-encrypted bytes.",
 }
